@@ -388,9 +388,100 @@ def r5_breadth_first(ctx: Context) -> None:
     ctx.check("self.breadth_first()" in norm(it), "C17.R5", "Graph.__iter__|breadth-first", loc(it), "ok", "iteration order changed")
 
 
+def r6_weights_in_one_unit(ctx: Context) -> None:
+    ctx.rule("C17.R6", "every weight function handed to get_longest_path that reads an EventTime converts it to one unit first "
+                       "(`.to(EventTime.Unit.X).time`): a bare `.time` compares runtimes of different units as plain numbers and the "
+                       "path returned is not the heaviest one")
+    n = 0
+    for m in ctx.repo.program_modules():
+        for c in ast.walk(m.tree):
+            if not (isinstance(c, ast.Call) and call_name(c) == "get_longest_path"):
+                continue
+            w = next((k.value for k in c.keywords if k.arg == "weights"), c.args[0] if c.args else None)
+            if w is None:
+                continue
+            bodies = []
+            if isinstance(w, ast.Lambda):
+                bodies = [w.body]
+            elif isinstance(w, ast.Name):
+                fn = enclosing_function(c)
+                for d in ast.walk(fn if fn is not None else m.tree):
+                    if isinstance(d, ast.FunctionDef) and d.name == w.id:
+                        bodies = [r.value for r in ast.walk(d) if isinstance(r, ast.Return) and r.value is not None]
+            if not bodies:
+                continue
+            n += 1
+            raw = []
+            units = set()
+            for b in bodies:
+                for a in ast.walk(b):
+                    if isinstance(a, ast.Attribute) and a.attr == "time":
+                        v = a.value
+                        if isinstance(v, ast.Call) and isinstance(v.func, ast.Attribute) and v.func.attr == "to" and v.args:
+                            units.add(norm(v.args[0]))
+                        elif isinstance(v, ast.Attribute) and ("runtime" in v.attr or "time" in v.attr or "slo" in v.attr or "deadline" in v.attr):
+                            raw.append(norm(a))
+            key = f"{qualname(c)}|weights `{norm(bodies[0])[:50]}` in one unit"
+            ctx.check(not raw and len(units) <= 1, "C17.R6", key, loc(c), f"unit {sorted(units) or 'n/a'}",
+                      f"the weight function reads {raw or sorted(units)}: EventTime values are compared in their own units, so with runtimes "
+                      "given in different units the longest path (and the critical-path runtime / deadline built on it) is not the maximum")
+    ctx.floor("C17.R6", "weight functions handed to get_longest_path", n, 4)
+
+
+MAPS = ("_graph", "_parent_graph")
+MUTATING_CALLS = ("append", "extend", "remove", "pop", "clear", "update", "insert", "setdefault", "popitem")
+
+
+def r7_adjacency_maps_in_step(ctx: Context) -> None:
+    ctx.rule("C17.R7", "the child map and the parent map are changed only by Graph's own methods, and a method that resets one "
+                       "of them (clear / re-assignment) resets the other too: parents(n) stays the inverse of children(n)")
+    n_mut = 0
+    for m in ctx.repo.program_modules():
+        for node in ast.walk(m.tree):
+            which = kind = None
+            if isinstance(node, ast.Call) and isinstance(node.func, ast.Attribute) and node.func.attr in MUTATING_CALLS:
+                base = node.func.value
+                if isinstance(base, ast.Subscript):
+                    base = base.value
+                if isinstance(base, ast.Attribute) and base.attr in MAPS:
+                    which, kind = base.attr, ("reset" if node.func.attr == "clear" and not isinstance(node.func.value, ast.Subscript) else "edit")
+            elif isinstance(node, (ast.Assign, ast.AugAssign, ast.Delete)):
+                ts = node.targets if isinstance(node, (ast.Assign, ast.Delete)) else [node.target]
+                for t in ts:
+                    if isinstance(t, ast.Attribute) and t.attr in MAPS:
+                        which, kind = t.attr, "reset"
+                    elif isinstance(t, ast.Subscript) and isinstance(t.value, ast.Attribute) and t.value.attr in MAPS:
+                        which, kind = t.value.attr, "edit"
+            if which is None:
+                continue
+            n_mut += 1
+            fn = enclosing_function(node)
+            cls = parent(fn) if fn is not None else None
+            while cls is not None and not isinstance(cls, ast.ClassDef):
+                cls = parent(cls)
+            in_graph = m.rel == GRAPH and cls is not None and cls.name == "Graph"
+            ctx.check(in_graph, "C17.R7", f"{qualname(node)}|`{norm(node)[:50]}` inside Graph", loc(node), "Graph method",
+                      f"`{norm(node)[:70]}` changes `{which}` outside class Graph: only Graph's own mutators keep the parent map the "
+                      "inverse of the child map (get_parents/get_sources/depth/dependency queries read the parent map)")
+            if in_graph and kind == "reset":
+                other = MAPS[1 - MAPS.index(which)]
+                twin = False
+                for x in ast.walk(fn):
+                    if isinstance(x, ast.Assign) and any(isinstance(t, ast.Attribute) and t.attr == other for t in x.targets):
+                        twin = True
+                    if isinstance(x, ast.Call) and isinstance(x.func, ast.Attribute) and x.func.attr == "clear" \
+                            and isinstance(x.func.value, ast.Attribute) and x.func.value.attr == other:
+                        twin = True
+                ctx.check(twin, "C17.R7", f"{qualname(node)}|reset of `{which}` paired with `{other}`", loc(node), "both maps reset",
+                          f"`{norm(node)[:60]}` resets `{which}` but `{other}` keeps its old entries")
+    ctx.floor("C17.R7", "mutations of the adjacency maps", n_mut, 6)
+
+
 def run(ctx: Context) -> None:
     ctx.isolate(r1_worklist)
     ctx.isolate(r2_topological_sort)
     ctx.isolate(r3_longest_path)
     ctx.isolate(r4_depth_and_dependency)
     ctx.isolate(r5_breadth_first)
+    ctx.isolate(r6_weights_in_one_unit)
+    ctx.isolate(r7_adjacency_maps_in_step)
